@@ -84,6 +84,23 @@ type C18V3 struct {
 	N map[string][]C18E1 `json:"n"`
 }
 
+// named container types that close a recursion cycle (the same named slice / map type above and inside the struct)
+type C18Nodes []*C18Node
+type C18Node struct {
+	Name     string   `json:"name"`
+	Children C18Nodes `json:"children"`
+}
+type C18Tree struct {
+	Roots C18Nodes `json:"roots"`
+}
+type C18Index map[string]*C18Entry
+type C18Entry struct {
+	Sub C18Index `json:"sub"`
+}
+type C18Book struct {
+	Index C18Index `json:"index"`
+}
+
 func c18Named() []any {
 	one, s := 1, "s"
 	ps := &s
@@ -100,6 +117,8 @@ func c18Named() []any {
 		C18U1{a: 1, B: 2}, C18T1{Raw: []byte{}}, C18T1{When: time.Date(2020, 1, 2, 3, 4, 5, 123456789, time.FixedZone("x", 3600)), Raw: []byte{1, 2}},
 		C18P1{}, C18P1{V: &sl}, C18D1{A: 1, B: 2},
 		C18V1{A: 1}, C18V1{A: 1, B: &one}, C18V2{A: e1, C: []C18E1{}}, C18V2{A: e1, B: &e1, C: []C18E1{e1}},
+		C18Tree{Roots: C18Nodes{}}, C18Tree{Roots: C18Nodes{{Name: "n", Children: C18Nodes{{Name: "m", Children: C18Nodes{}}}}}}, C18Nodes{{Name: "n", Children: C18Nodes{}}},
+		C18Book{Index: C18Index{}}, C18Book{Index: C18Index{"k": {Sub: C18Index{"j": {Sub: C18Index{}}}}}},
 		C18V3{L: []*C18E1{}, M: map[string]*C18E1{}, N: map[string][]C18E1{}}, C18V3{L: []*C18E1{&e1, nil}, M: map[string]*C18E1{"k": nil, "j": &e1}, N: map[string][]C18E1{"k": {e1}}},
 	}
 }
